@@ -653,8 +653,11 @@ func (c *specCtx) indexVal(v Val, t types.Type, iv Val) (Val, types.Type) {
 		k := c.e.mapKey(c.st, u.Key(), iv)
 		ls := Leaves(u.Elem())
 		out := Val{T: make([]*Term, len(ls))}
+		// Go semantics: the zero value for absent keys
+		in := tb.And(tb.Neq(v.T[0], tb.Int(0)), tb.Select(tb.Select(c.H(c.e.mapDomClass(u), SArr2B), v.T[0]), k))
+		z := c.e.flatten(c.st, u.Elem(), c.e.zeroVal(u.Elem()))
 		for i, l := range ls {
-			out.T[i] = tb.Select(tb.Select(c.H(c.e.mapValClass(u, l), ArrOf(ArrOf(l.Sort))), v.T[0]), k)
+			out.T[i] = tb.Ite(in, tb.Select(tb.Select(c.H(c.e.mapValClass(u, l), ArrOf(ArrOf(l.Sort))), v.T[0]), k), z.T[i])
 		}
 		return out, u.Elem()
 	case *types.Pointer:
@@ -743,6 +746,29 @@ func (c *specCtx) call(n *SCall) (Val, types.Type) {
 	case "payload":
 		v, _ := arg(0)
 		return scalar(v.ifVal()), untypedInt
+	case "istype":
+		v, _ := arg(0)
+		s, ok := n.Args[1].(*SStr)
+		if !ok {
+			c.fail("istype needs a type string literal")
+		}
+		return scalar(tb.Eq(v.ifTag(), tb.Int(c.e.typeTag(c.resolveType(s.V))))), boolType
+	case "as":
+		// as(x, "T"): the payload of interface value x viewed as a value of dynamic type T (meaningful under istype(x, "T"))
+		v, _ := arg(0)
+		s, ok := n.Args[1].(*SStr)
+		if !ok {
+			c.fail("as needs a type string literal")
+		}
+		T := c.resolveType(s.V)
+		if ix, isC := v.ann("").(*IfaceX); isC && ix.Box != nil && types.Identical(ix.Dyn, T) {
+			return *ix.Box, T
+		}
+		ls := Leaves(T)
+		if len(ls) != 1 || ls[0].Sort != SInt {
+			c.fail("as: only scalar/pointer dynamic types are supported")
+		}
+		return scalar(v.ifVal()), T
 	case "typetag":
 		s, ok := n.Args[0].(*SStr)
 		if !ok {
